@@ -116,6 +116,18 @@ def _worker_run(args):
     return res
 
 
+def _worker_run_roundtrip(args):
+    """like _worker_run, but the case goes through a JSON round trip with sorted keys first (what a replay file
+    or a hand-edited case looks like): the digest must not depend on the key order of the document"""
+    pid, seed, run, tier, keep_events = args
+    prop = get_prop(pid)
+    case = json.loads(json.dumps(prop.generate(seed, run, tier), sort_keys=True))
+    res = exec_case(pid, case)
+    res['run'] = run
+    res.pop('events', None)
+    return res
+
+
 def _worker_exec(args):
     pid, case = args
     res = exec_case(pid, case)
@@ -243,7 +255,7 @@ def write_replay(pid, seed, run, case, failure, digest, directory=None) -> str:
         json.dump({'property': pid, 'seed': seed, 'run': run, 'case': case,
                    'expect': {'sig': failure['sig'], 'clause': failure['clause'],
                               'msg': failure.get('msg', ''), 'digest': digest}},
-                  f, indent=1, sort_keys=True)
+                  f, indent=1)        # key order is preserved on purpose (no sort_keys)
     return path
 
 
